@@ -54,6 +54,16 @@ def gen_case(rng):
         if sep == "" and body[:1].isdigit():
             sep = " "
         lines.append(f"{num}{sep}{body}")
+        if rng.random() < 0.12:
+            # the same statement again, equal up to the letter case (inside literals too), or with signed exponents: each line is encoded for itself
+            num = max(1, min(num + 1, 65535))
+            lines.append(f"{num}{sep}{body.swapcase() if rng.random() < 0.6 else body.upper()}")
+    if rng.random() < 0.08:
+        num = max(1, min(num + 1, 65535))
+        lines.append(f"{num} " + rng.choice(['IF R$="o" THEN 100', 'X=1E+5:Y=2.5D-3', 'a=1e-7+b', 'REM mixed Case remark', "10 CLS:'END", "'DEFINT A", 'PRINT "~";A~B', 'A$="abc   ', 'Z=1E5']))
+        if rng.random() < 0.5:
+            num = max(1, min(num + 1, 65535))
+            lines.append(f"{num} " + rng.choice(['IF R$="O" THEN 100', 'x=1e+5:y=2.5d-3', 'rem MIXED case REMARK']))
     text = "\n".join(lines)
     if lines and rng.random() < 0.8:
         text += "\n"
